@@ -299,6 +299,7 @@ def py_monitors(sc, trace, final=None):
     teardown_since_summary = 0
     pending_rows = []
     collected = []
+    unrerun_missing = set()
     node_group = {}
     node_batch = {}
     for i, ev in enumerate(trace):
@@ -358,7 +359,12 @@ def py_monitors(sc, trace, final=None):
                         probs.append(("C07", "blockers-not-closed", f"job {n} batched with unfinished blockers {bl}", i))
                     miss = [d for d in by[n].get("deps", []) if d not in bl and d not in rows]
                     if miss:
-                        probs.append(("C02", "batched-before-blocker-outcome", f"job {n} handed to a node without blockers {miss} that have no outcome", i))
+                        if unrerun_missing and set(miss) <= unrerun_missing:
+                            # known finding: resubmit-jobs reran this job but not its blocker, which had no result (was
+                            # missing and the missing jobs were deselected or lost again): the blocker is dropped
+                            probs.append(("C02", "rerun-job-started-without-its-missing-blocker", f"after resubmit-jobs job {n} is handed to a node without its blocker(s) {miss}, which were missing and are not rerun", i))
+                        else:
+                            probs.append(("C02", "batched-before-blocker-outcome", f"job {n} handed to a node without blockers {miss} that have no outcome", i))
         elif k == "launch":
             n = ev["job"]
             if n in launched:
@@ -367,7 +373,10 @@ def py_monitors(sc, trace, final=None):
             have = set(ev.get("rows") or [])
             miss = [d for d in by[n].get("deps", []) if d not in have]
             if miss:
-                probs.append(("C02", "started-before-blocker-outcome", f"job {n} started before {miss} had an outcome", i))
+                if unrerun_missing and set(miss) <= unrerun_missing:
+                    probs.append(("C02", "rerun-job-started-without-its-missing-blocker", f"after resubmit-jobs job {n} is started although its blocker(s) {miss} were missing and are not rerun", i))
+                else:
+                    probs.append(("C02", "started-before-blocker-outcome", f"job {n} started before {miss} had an outcome", i))
             nd = ev.get("node")
             if ev.get("live") is not None and nd in node_batch:
                 bjobs, bgroup = node_batch[nd]
@@ -416,6 +425,8 @@ def py_monitors(sc, trace, final=None):
                     probs.append(("C08", "row-fabricated", f"collected a row of {n} that no node wrote", i))
         elif k == "prepare_resubmit" and ev.get("ok"):
             # a resubmission legitimately runs the selected jobs again: forget their first-phase history
+            # jobs that had no result at the resubmission and are not rerun stay without outcome for good
+            unrerun_missing = {j["name"] for j in sc["jobs"] if j["name"] not in rows and j["name"] not in ev["rerun"]}
             for n in ev["rerun"]:
                 launched.pop(n, None)
                 handed.pop(n, None)
